@@ -137,6 +137,22 @@ def run_xlsx_cases(ctx, cases, tag):
                     if sa[k2] != want:
                         ctx.disagreements.append({"function": "generator-names", "case": case,
                                                   "impl": want, "model": sa[k2]})
+        # ... and of the column names (the texts of the header cells: the generator escaped them as
+        # ST_Xstrings with its own reading of ECMA-376 22.9.2.19, mergegen.xs_escape / xs_decode)
+        if legal and dom and c.get("structured", True) and info.get("tcols") is not None:
+            cs, sa = split_calls(c["calls"], s)
+            for k2, cl in enumerate(cs):
+                if cl.startswith("table ") and k2 < len(sa) and sa[k2].count("|") == 3:
+                    tn = bytes.fromhex(cl[6:]).decode("utf-8", "replace")
+                    if tn in info["tcols"]:
+                        want = ",".join(hx(cn) for cn in info["tcols"][tn])
+                        if sa[k2].split("|")[2] != want:
+                            ctx.disagreements.append({"function": "generator-columns", "case": case,
+                                                      "impl": want, "model": sa[k2].split("|")[2]})
+                        ctx.count("columns-checked")
+                        for cn in info["tcols"][tn]:
+                            if "_" in cn or any(ord(ch) < 32 for ch in cn):
+                                ctx.count("column-name:xstring-relevant")
         if impl.get(lid, "").endswith("panic"):
             ctx.count("xlsx-panic")
         ctx.sample({"case": c["desc"][:160] + "…", "calls": c["calls"][:80] + "…", "impl_equals_model": impl.get(lid) == m,
@@ -189,7 +205,7 @@ def one_table_case(name="T1", ref=(1, 1, 4, 2), header=1, totals=1, ins=0, cols=
     calls = ["merges " + hx(sheet), "mergesat 0", "mergesby " + hx(sheet), "allmerges", "tables",
              "tablesin " + hx(sheet), "table " + hx(name)]
     return {"desc": " ".join(toks), "calls": ";".join(calls), "info": {"regions": len(regions), "tables": 1, "sheets": 1,
-                                                                      "tnames": [name]},
+                                                                      "tnames": [name], "tcols": {name: list(cols)}},
             "pack_seed": None, "tableref": True, "profile": "corpus"}
 
 
@@ -203,6 +219,9 @@ WITNESSES = {
     "InsertRowFalse": one_table_case(insert="f"),
     "EmptyData": one_table_case(ref=(1, 1, 1, 2), header=1, totals=0),
     "EmptyData-totals-row1": one_table_case(header=0, totals=1, ref=(0, 0, 0, 1)),
+    # audit 2, XLSX-1 (repaired by "fix: xlsx table column names were returned with their _xHHHH_
+    # escapes"): the header typed with Alt+Enter, as Excel and openpyxl store it
+    "XstringColumn": one_table_case(cols=("a\nb", "value"), cols_sp=["pL" + hx("a_x000a_b"), xs("value")]),
 }
 CORPUS = [
     one_table_case(regions=((0, 0, 1, 1), (1048575, 16383, 1048575, 16383), (2, 26, 3, 702))),
@@ -230,6 +249,17 @@ CORPUS = [
                    cols_sp=["pH60.2", "pN62", "pU228.4+H128512.8"]),
     one_table_case(name="T&1", name_sp="pL54+N38+D49.5", cols=("'\"", "\t"), cols_sp=["pN39+N34", "pD9.1"]),
     one_table_case(target="A", typ="S", insert="f", cols=("P&L", "b")),         # all formerly-known forms at once
+    # column names are ST_Xstrings: upper / lower / mixed-case digits, an escaped underscore, text that
+    # only looks like an escape, a surrogate escape (stays), escapes of non-ASCII characters, an escape
+    # spelled partly by a character reference, CR, an escape right after a would-be escape
+    one_table_case(cols=("a\nb", "a\rb", "_x000a_", "é", "\ufffe"),
+                   cols_sp=["pL" + hx("a_x000A_b"), "pL" + hx("a_x000d_b"), "pL" + hx("_x005F_x000a_"),
+                            "pL" + hx("_x00e9_"), "pL" + hx("_xFfFe_")]),
+    one_table_case(cols=("_xD800_", "_x41_", "_X0041_", "a\rb", "_x0041\n", "A_"),
+                   cols_sp=["pL" + hx("_xD800_"), "pL" + hx("_x41_"), "pL" + hx("_X0041_"),
+                            "pL" + hx("a_x00") + "+D48.2+L" + hx("D_b"), "pL" + hx("_x005f_x0041_x000a_"),
+                            "pL" + hx("_x0041__x005F_")]),
+    one_table_case(name="_x0041_", cols=("列", "a_b", "__")),                  # a table name is NOT decoded (see notes)
 ]
 
 
